@@ -173,6 +173,12 @@ def run_history(header, hist, verify_from=0):
             return state2, ["step %d %s: library %s, model %s" % (n, op, got, want)], notes
         if want != "ok" and op[0] in ("add", "loaddoc") and after != before:
             return state2, ["step %d %s: refused add changed the manifest: %s -> %s" % (n, op, sorted(before[0]), sorted(after[0]))], notes
+        if want != "ok" and op[0] == "add":
+            # the very same add again, right away: the refusal must not depend on the call having been seen before
+            r = call(im.add, op[1], op[2], objs[op[3]])
+            if r[0] == "ok" or r[1] != want or observe(im) != before:
+                return state2, ["step %d %s: refused, but the same add repeated at once %s" % (
+                    n, op, "is accepted" if r[0] == "ok" else "raises %s" % r[1] if r[1] != want else "changes the manifest")], notes
         if after[0] != set(state2[1]):
             return state2, ["step %d %s: manifest holds %s, model %s" % (n, op, sorted(after[0]), sorted(state2[1]))], notes
         if after[1] != {(v, a) for (v, a, _) in state2[1]}:
